@@ -162,6 +162,13 @@ def graph_prog(rng):
     mk = "function mk(P keep, O keepo) -> void {\n  " + "\n  ".join(body) + "\n}\n"
     main = ["P live = new P();", "O lo = new %s(99);" % rng.choice(["O", "O2", "O3"]), "mk(live, lo);",
             "for (int i = 0; i < %d; i = i + 1) { Junk j = new Junk(); }" % rng.choice([0, 3, 25])]
+    # the live object changes after the collections above: what it holds by the time its variable dies must be released
+    # the same way whether or not a garbage cycle that also held it was reclaimed in between
+    r = rng.random()
+    if r < 0.3:
+        main.append("live.o = new %s(77);" % rng.choice(["O", "O2", "O3"]))
+    elif r < 0.45:
+        main.append("live.c = new P(); live.c.o = new O(78);")
     if rng.random() < 0.4:
         main.append("live.a = null; live.b = null;")
     if rng.random() < 0.3:
@@ -409,6 +416,20 @@ def run(chk):
                                                   "how": "BLOCH_VERIF_GC=%s build/hooked/bin/bloch p.bloch   vs   BLOCH_VERIF_GC=none ..." % sname},
                            "destructor output depends on the collection schedule (%s)" % sname)
                 break
+    # a collection costs about one visit per reference: long live structures ending in an observable object, under the default
+    # triggers and with a collection at every statement, must finish within the per-program limit (20 s) with the same output
+    big = ["class D { public constructor() -> D { return this; } public destructor() -> D { echo(\"~D\"); } }\n"
+           "class N { public N next; public D d; public constructor() -> N { this.next = null; this.d = null; return this; } }\n"
+           "function main() -> void { N head = new N(); N tail = head; for (int i = 0; i < %d; i = i + 1) { N n = new N(); tail.next = n; tail = n; }\n"
+           "  tail.d = new D(); for (int i = 0; i < %d; i = i + 1) { N t = new N(); } echo(\"built\"); }" % (n1, n2) for n1, n2 in ((2500, 2500), (600, 4000))]
+    bouts = {sname: lc.run_impl(big, env=("BLOCH_VERIF_GC=%s" % sname) if sname != "default" else "") for sname in ("default", "all")}
+    for i, src in enumerate(big):
+        for sname, res in bouts.items():
+            r = res[i]
+            if r.get("status") != "ok" or r.get("stdout") != "built\n~D\n":
+                chk.report("c11-long-list", {"source": src, "schedule": sname, "implementation": {k: r.get(k) for k in ("status", "cat", "msg", "stdout", "signal")},
+                                             "how": "bloch p.bloch with a 20 s limit (default triggers, or BLOCH_VERIF_GC=all)"},
+                           "a long live list ending in an object with a destructor: %s %s (expected built / ~D within 20 s)" % (r.get("status"), (r.get("stdout") or "")[:40]))
     kept = kept_set_runs(chk, gsrc + qsrc + srcs[:(60 if quick else 600)])
     nthr = thread_runs(chk)
     ntsan = tsan_runs(chk) if True else 0
